@@ -4,7 +4,7 @@
  * is_pure_decimal is true exactly for a decimal (no 0x / leading-0) token. */
 void harness(void) {
   HAVOC_BUFS;
-  sv_t view; view.n = nondet_size(); MAKE_SV(view);
+  ND_SV(view);
   const char *p = view.p; const char *end = view.p + view.n;
   uint64_t value = 0; _Bool pure = 0;
   size_t tok = 0;
